@@ -297,6 +297,54 @@ fn check_pair(sub: &str, l: &J, lt: &str, r: &J, rt: &str, st: &mut Stats) -> Ca
     Ok(())
 }
 
+/// Containers built by the expression itself around the two operands (multi-select
+/// lists and hashes): their members are the very nodes of the document, shared
+/// between both sides of the comparison.
+fn check_wrapped(sub: &str, l: &J, lt: &str, r: &J, rt: &str, st: &mut Stats) -> CaseResult {
+    let obj = |kvs: &[(&str, &J)]| J::Obj(kvs.iter().map(|(k, v)| (k.to_string(), (*v).clone())).collect());
+    let arr = |vs: &[&J]| J::Arr(vs.iter().map(|v| (*v).clone()).collect());
+    let cases: Vec<(&str, J, J)> = vec![
+        ("{a: l} OP {b: l}", obj(&[("a", l)]), obj(&[("b", l)])),
+        ("{a: l, b: r} OP {a: l, c: r}", obj(&[("a", l), ("b", r)]), obj(&[("a", l), ("c", r)])),
+        ("{a: l, b: r} OP {b: r, a: l}", obj(&[("a", l), ("b", r)]), obj(&[("a", l), ("b", r)])),
+        ("{a: l} OP {a: r}", obj(&[("a", l)]), obj(&[("a", r)])),
+        ("{a: l} OP {a: l, b: l}", obj(&[("a", l)]), obj(&[("a", l), ("b", l)])),
+        ("[l, r] OP [l, r]", arr(&[l, r]), arr(&[l, r])),
+        ("[l, r] OP [r, l]", arr(&[l, r]), arr(&[r, l])),
+        ("[l] OP [l, l]", arr(&[l]), arr(&[l, l])),
+        ("[[l]] OP [[r]]", arr(&[&arr(&[l])]), arr(&[&arr(&[r])])),
+        ("{a: [l]} OP {a: [l]}", obj(&[("a", &arr(&[l]))]), obj(&[("a", &arr(&[l]))])),
+        ("[l] OP l", arr(&[l]), l.clone()),
+        ("{a: @} OP {b: @}", J::Null, J::Null), // placeholder, filled below
+    ];
+    let doc = format!("{{\"l\":{},\"r\":{}}}", lt, rt);
+    let docj = obj(&[("l", l), ("r", r)]);
+    let mut parts = vec![];
+    let mut want = vec![];
+    for (tpl, a, b2) in &cases {
+        let (a, b2) = if tpl.contains('@') { (obj(&[("a", &docj)]), obj(&[("b", &docj)])) } else { (a.clone(), b2.clone()) };
+        for op in [CmpOp::Eq, CmpOp::Ne, CmpOp::Le] {
+            parts.push(tpl.replace("OP", op.text()));
+            want.push(compare(op, &a, &b2));
+        }
+    }
+    let expr = format!("[{}]", parts.join(", "));
+    st.eval();
+    let case = json!({"l": lt, "r": rt, "route": "wrapped", "expression": expr, "document": doc});
+    match search_text(&expr, &doc) {
+        ImpOut::Ok(J::Arr(g)) if g.len() == want.len() => {
+            for i in 0..g.len() {
+                if !g[i].deep_eq(&want[i]) {
+                    let sig = if parts[i].contains("<=") { "ordering-wrong" } else { "equality-wrong" };
+                    return Err(Failure::new(sub, sig, format!("{} gave {} expected {} (wrapped route)", parts[i], g[i].to_json(), want[i].to_json()), case));
+                }
+            }
+            Ok(())
+        }
+        other => Err(Failure::new(sub, "comparison-failed", other.brief(), case)),
+    }
+}
+
 fn pairs(src: &mut Src, st: &mut Stats, _env: &Env) -> CaseResult {
     let ((l, lt), (r, rt), kind) = match gen_pair(src, st) {
         Some(x) => x,
@@ -316,6 +364,7 @@ fn pairs(src: &mut Src, st: &mut Stats, _env: &Env) -> CaseResult {
         return Ok(());
     }
     check_pair("pairs", &l, &lt, &r, &rt, st)?;
+    check_wrapped("pairs", &l, &lt, &r, &rt, st)?;
     st.class(&format!("pair:{}", kind));
     st.class(&format!("types:{}/{}", l.type_name(), r.type_name()));
     if l.deep_eq(&r) {
